@@ -7,6 +7,13 @@
 #include <kernel/adjacency/dynamic_graph.hpp>
 #include <kernel/adjacency/adjactor.hpp>
 #include <kernel/util/random.hpp>
+#include <exact_q.hpp>
+#include <kernel/util/tiny_algebra.hpp>
+#include <kernel/lafem/dense_vector.hpp>
+#include <kernel/lafem/dense_vector_blocked.hpp>
+#include <kernel/lafem/sparse_matrix_csr.hpp>
+#include <kernel/geometry/index_set.hpp>
+#include <kernel/geometry/vertex_set.hpp>
 
 using namespace FEAT;
 using namespace FEAT::Adjacency;
@@ -48,6 +55,40 @@ static void show_perm(std::ostream& o, const Permutation& p)
   o << "P "; show_list(o, p.get_perm_pos(), p.size());
   o << " "; show_list(o, p.get_swap_pos(), p.size());
 }
+
+
+static Permutation mk_perm(const std::vector<std::size_t>& v)
+{
+  // an empty array is the empty permutation (Permutation() - "no permutation")
+  if(v.empty()) return Permutation();
+  std::vector<Index> w(v.begin(), v.end());
+  return Permutation(Index(w.size()), Permutation::ConstrType::perm, w.data());
+}
+
+static Index q2idx(const Q& q) { return Index(q.v().get_num().get_ui()); }
+
+template<int bs_>
+static void apply_blocked(std::ostream& o, const Permutation& p, const std::vector<std::size_t>& x)
+{
+  typedef Tiny::Vector<Index, bs_> Blk;
+  const Index n = p.size();
+  std::vector<Blk> src(n);
+  for(Index i = 0; i < n; ++i) for(int k = 0; k < bs_; ++k) src[i][k] = Index(x.at(i * Index(bs_) + Index(k)));
+  std::vector<Blk> a(src), b(src), cc(n), d(n);
+  p.apply(a.data(), false);
+  p.apply(b.data(), true);
+  p.apply(cc.data(), src.data(), false);
+  p.apply(d.data(), src.data(), true);
+  const std::vector<Blk>* all[4] = {&a, &b, &cc, &d};
+  o << "AB";
+  for(auto* v : all)
+  {
+    o << " " << n * Index(bs_);
+    for(Index i = 0; i < n; ++i) for(int k = 0; k < bs_; ++k) o << " " << (*v)[i][k];
+  }
+}
+
+static Permutation::ConstrType ctype(Index k);
 
 static Permutation::ConstrType ctype(Index k)
 {
@@ -152,6 +193,10 @@ static void handle(const verif::Tokens& t, std::ostream& o)
     o << " ";
     Graph pg = col.create_partition_graph();
     show_graph(o, pg);
+    // round trip: the transposed partition graph lists for every node its colour
+    o << " T ";
+    Graph tp(RenderType::transpose, pg);
+    show_graph(o, tp);
   }
   else if(op == "cm")
   {
@@ -309,6 +354,110 @@ static void handle(const verif::Tokens& t, std::ostream& o)
       Graph b = read_graph(c);
       if(kind == 2) { DynamicGraph dg(RenderType(rt), a, b); Graph r(RenderType::as_is, dg); show_graph(o, r); }
       else { DynamicGraph dg(RenderType(rt), a); dg.compose(b); Graph r(RenderType::as_is, dg); show_graph(o, r); }
+    }
+  }
+  else if(op == "applyblk")
+  {
+    // apply / inverse apply, in-situ and out-of-place, on an array of Tiny::Vector<Index, bs> blocks
+    Index kind = c.idx();
+    auto v = c.idxlist(); std::vector<Index> w(v.begin(), v.end());
+    Index bs = c.idx();
+    auto x = c.idxlist();
+    Permutation p(Index(w.size()), ctype(kind), w.data());
+    if(bs == 1) apply_blocked<1>(o, p, x);
+    else if(bs == 2) apply_blocked<2>(o, p, x);
+    else if(bs == 3) apply_blocked<3>(o, p, x);
+    else o << "BAD-OP";
+  }
+  else if(op == "dvperm")
+  {
+    // blocked = 0: DenseVector<Q>::permute; 1: DenseVectorBlocked<Q, Index, 2>::permute
+    Index blocked = c.idx();
+    auto pv = c.idxlist();
+    auto x = c.idxlist();
+    Permutation p = mk_perm(pv);
+    o << "DV " << x.size();
+    if(blocked == 0)
+    {
+      LAFEM::DenseVector<Q, Index> dv{Index(x.size())};
+      for(Index i = 0; i < Index(x.size()); ++i) dv(i, Q((unsigned long)x[i]));
+      dv.permute(p);
+      for(Index i = 0; i < dv.size(); ++i) o << " " << q2idx(dv(i));
+    }
+    else
+    {
+      LAFEM::DenseVectorBlocked<Q, Index, 2> dv{Index(x.size() / 2)};
+      for(Index i = 0; i < dv.size(); ++i)
+      {
+        Tiny::Vector<Q, 2> t; t[0] = Q((unsigned long)x[2*i]); t[1] = Q((unsigned long)x[2*i+1]);
+        dv(i, t);
+      }
+      dv.permute(p);
+      for(Index i = 0; i < dv.size(); ++i) { auto t = dv(i); o << " " << q2idx(t[0]) << " " << q2idx(t[1]); }
+    }
+  }
+  else if(op == "isperm")
+  {
+    // Geometry::IndexSet<3>::permute(perm, inv_perm_face) (the MeshPermutation way of permuting a mesh's index sets)
+    auto pv = c.idxlist(); auto qv = c.idxlist();
+    Index bound = c.idx();
+    auto x = c.idxlist();
+    const Index n = Index(x.size() / 3);
+    Geometry::IndexSet<3> is(n, bound);
+    for(Index i = 0; i < n; ++i) for(int k = 0; k < 3; ++k) is(i, k) = Index(x[3*i + Index(k)]);
+    Permutation p = mk_perm(pv), q = mk_perm(qv);
+    is.permute(p, q);
+    o << "IS " << is.get_num_entities() << " " << is.get_index_bound() << " " << 3*n;
+    for(Index i = 0; i < n; ++i) for(int k = 0; k < 3; ++k) o << " " << is(i, k);
+    // the same index set seen as an adjactor, rendered
+    Graph g(RenderType::as_is, is);
+    o << " "; show_graph(o, g);
+  }
+  else if(op == "vsperm")
+  {
+    // Geometry::VertexSet<2, Q>::permute(perm, invert)
+    Index inv = c.idx();
+    auto pv = c.idxlist();
+    auto x = c.idxlist();
+    const Index n = Index(x.size() / 2);
+    Geometry::VertexSet<2, Q> vs(n);
+    for(Index i = 0; i < n; ++i) { vs[i][0] = Q((unsigned long)x[2*i]); vs[i][1] = Q((unsigned long)x[2*i+1]); }
+    Permutation p = mk_perm(pv);
+    vs.permute(p, inv != 0);
+    o << "VS " << 2*n;
+    for(Index i = 0; i < n; ++i) o << " " << q2idx(vs[i][0]) << " " << q2idx(vs[i][1]);
+  }
+  else if(op == "csrperm")
+  {
+    // SparseMatrixCSR(graph).permute(p, q): its pattern vs Graph(graph, p, q^-1) + sort_indices
+    Graph g0 = read_graph(c);
+    auto pv = c.idxlist(); auto qv = c.idxlist();
+    Graph g(RenderType::injectify_sorted, g0);
+    LAFEM::SparseMatrixCSR<Q, Index> a(g);
+    // mark every entry with its original (row, column) so that values are seen to travel with the pattern
+    {
+      const Index* rp = a.row_ptr(); const Index* ci = a.col_ind(); Q* va = a.val();
+      for(Index r = 0; r < a.rows(); ++r) for(Index k = rp[r]; k < rp[r+1]; ++k) va[k] = Q((unsigned long)(r * 1000 + ci[k]));
+    }
+    Permutation p = mk_perm(pv), q = mk_perm(qv);
+    a.permute(p, q);
+    o << "CP ";
+    Graph pat(RenderType::as_is, a);
+    show_graph(o, pat);
+    o << " V " << a.used_elements();
+    for(Index k = 0; k < a.used_elements(); ++k) o << " " << q2idx(a.val()[k]);
+    o << " ";
+    if(p.empty() && q.empty())
+    {
+      // "no permutation": the matrix is left alone, and so is the graph
+      show_graph(o, g);
+    }
+    else
+    {
+      Permutation qi = q.inverse();
+      Graph r(g, p, qi);
+      r.sort_indices();
+      show_graph(o, r);
     }
   }
   else
